@@ -294,10 +294,6 @@ def kinds_ok(pool):
     return all(isinstance(pool[n], list) for n in ('aa', 'bb', 'cc')) and all(isinstance(pool[n], dict) for n in ('oo', 'pp'))
 
 
-def is_scalar(v):
-    return not isinstance(v, (list, dict))
-
-
 NOTHING = ('NOTHING',)
 
 
@@ -545,7 +541,10 @@ def fam_containers(arg):
     model = ContainerModel(tier, seed_filter)
     # stop between two levels before the runner's own cap would kill the shard (the evidence then says exhaustive: false)
     cap = 0.9 * float(os.environ.get('VERIF_TIME_CAP_S', '1500' if tier == 'quick' else '14400'))
+    t0 = os.times()
     rep = bfs.explore(model, acc, deadline=time.time() + cap)
+    t1 = os.times()
+    acc.extra['cpu_seconds_all_bfs_workers'] = int(sum(t1[:4]) - sum(t0[:4]))
     if acc.cases != rep['expanded'] * len(model.rt.events):
         raise HarnessError(f'containers: {acc.cases} cases for {rep["expanded"]} expanded states x {len(model.rt.events)} events')
     acc.extra['events_in_alphabet'] = len(model.rt.events)
@@ -555,7 +554,6 @@ def fam_containers(arg):
     for d, n in enumerate(rep['levels']):
         acc.extra[f'states_first_seen_at_depth_{d:02d}'] = n
     acc.extra['seeds'] = len(rep['seeds'])
-    acc.extra['seeds_already_reachable_from_earlier_seed_states'] = sum(1 for s in rep['seeds'] if not s['new'])
     if rep['stopped']:
         acc.sample({'search_stopped': rep['stopped']})
     return acc.result()
@@ -568,11 +566,14 @@ def fam_containers(arg):
 MISSING = ('MISSING',)
 
 
-def string_pool():
+STRLEN = {'quick': 3, 'thorough': 4}
+
+
+def string_pool(maxlen):
     out = ['']
-    for n in (1, 2, 3):
+    for n in range(1, maxlen + 1):
         out.extend(''.join(t) for t in itertools.product('ab ', repeat=n))
-    return out + ['A', 'é', '\U0001F600']
+    return out + ['A', 'é', '\U0001F600', '\t', 'a\n']
 
 
 def str_indices(s):
@@ -594,9 +595,9 @@ CODES = [97.0, 32.0, 233.0, 128512.0, 0.0]
 BADCODES = [num(-1), num(1.5), NULL, TRUE, lit('a'), var('arr'), var('obj')]
 
 
-def string_domain(kind, first):
+def string_domain(kind, first, maxlen):
     if kind == 'S':
-        return [('str', s) for s in string_pool()]
+        return [('str', s) for s in string_pool(maxlen)]
     if kind == 'I':
         return [num(i) for i in str_indices(first)]
     if kind == 'N':
@@ -604,14 +605,14 @@ def string_domain(kind, first):
     return [num(c) for c in COUNTS]
 
 
-def string_cases(name, firsts):
-    """Every argument list of one string function whose first argument is string_pool()[i] for i in firsts, followed -
+def string_cases(name, firsts, maxlen):
+    """Every argument list of one string function whose first argument is string_pool(maxlen)[i] for i in firsts, followed -
     with the first of `firsts` only - by the wrong-typed, missing and surplus lists."""
     kinds, required = STRING_SIGS[name]
-    pool = string_pool()
+    pool = string_pool(maxlen)
     for fi in firsts:
         first = pool[fi]
-        doms = [[('str', first)]] + [string_domain(k, first) for k in kinds[1:]]
+        doms = [[('str', first)]] + [string_domain(k, first, maxlen) for k in kinds[1:]]
         for m in range(required, len(kinds) + 1):
             for combo in itertools.product(*doms[:m]):
                 yield list(combo)
@@ -628,11 +629,11 @@ def string_cases(name, firsts):
             yield base + [num(1)]
 
 
-def string_count(name):
+def string_count(name, maxlen):
     kinds, required = STRING_SIGS[name]
     total = 0
-    npool = len(string_pool())
-    for first in string_pool():
+    npool = len(string_pool(maxlen))
+    for first in string_pool(maxlen):
         sizes = [1] + [{'S': npool, 'I': len(first) + 6, 'N': len(first) + 7, 'C': len(COUNTS)}[k] for k in kinds[1:]]
         for m in range(required, len(kinds) + 1):
             prod = 1
@@ -692,7 +693,7 @@ def sref_value(a):
 
 def check_strings(case, acc):
     name = case['fn']
-    args = [tuple(a) if a[0] != 'x' else a for a in case['args']]
+    args = [tuple(a) for a in case['args']]
     srt = sruntime()
     before = canon(SGLOBALS)
     out = rl.call(name, [sref_value(a) for a in args])
@@ -714,19 +715,19 @@ def check_strings(case, acc):
 
 
 def jsonable_args(args):
-    return [list(a[:1]) + [a[1] if a[0] in ('str', 'n', 's', 'k', 'v', 'f', 'g') else None] + list(a[2:]) for a in args]
+    return [list(a) for a in args]
 
 
 def fam_strings(arg):
-    name, firsts = arg
+    name, firsts, maxlen = arg
     acc = Acc('strings')
     if name == 'stringNew':
-        cases = [[a] for a in NEW_VALUES] + [[('str', s)] for s in string_pool()] + [[], [lit('a'), lit('b')]]
+        cases = [[a] for a in NEW_VALUES] + [[('str', s)] for s in string_pool(maxlen)] + [[], [lit('a'), lit('b')]]
     elif name == 'stringFromCharCode':
         cases = [[num(c) for c in combo] for n in range(0, 4) for combo in itertools.product(CODES, repeat=n)]
         cases += [[num(97)] * pos + [w] + [num(98)] * (1 - pos) for w in BADCODES for pos in (0, 1)]
     else:
-        cases = string_cases(name, firsts)
+        cases = string_cases(name, firsts, maxlen)
     for args in cases:
         acc.cases += 1
         obs = check_strings({'fn': name, 'args': jsonable_args(args)}, acc)
@@ -827,7 +828,7 @@ def check_bad_call(case, acc):
 # urlEncode / urlEncodeComponent
 # ---------------------------------------------------------------------------------------------------------------
 
-URL_CHARS = [chr(c) for c in range(128)] + ['é', 'ß', 'Ω', '中', '\U0001F600', ' ']
+URL_CHARS = [chr(c) for c in range(128)] + ['é', 'ß', 'Ω', '中', '\U0001F600', '\u00a0']
 UNRESERVED = frozenset('ABCDEFGHIJKLMNOPQRSTUVWXYZabcdefghijklmnopqrstuvwxyz0123456789-_.~')
 ALLOWED = {
     # encodeURIComponent leaves the unreserved marks ! * ' ( ) alone; encodeURI also every reserved delimiter
@@ -902,16 +903,17 @@ def fam_url(arg):
 
 def families(tier):
     b = BOUNDS[tier]
-    npool = len(string_pool())
+    maxlen = STRLEN[tier]
+    npool = len(string_pool(maxlen))
     sshards = []
     expected_strings = 0
     for name in STRING_SIGS:
         nsh = 16 if name == 'stringReplace' else (4 if len(STRING_SIGS[name][0]) == 3 else 1)
-        sshards.extend((name, rows) for rows in split(list(range(npool)), nsh))
-        expected_strings += string_count(name)
-    sshards.append(('stringNew', None))
+        sshards.extend((name, rows, maxlen) for rows in split(list(range(npool)), nsh))
+        expected_strings += string_count(name, maxlen)
+    sshards.append(('stringNew', None, maxlen))
     expected_strings += len(NEW_VALUES) + npool + 2
-    sshards.append(('stringFromCharCode', None))
+    sshards.append(('stringFromCharCode', None, maxlen))
     expected_strings += sum(len(CODES) ** n for n in range(4)) + 2 * len(BADCODES)
     nrx = len(regex_strings())
     nurl = len(URL_CHARS)
@@ -922,7 +924,7 @@ def families(tier):
                f'(16 array* + 8 object* functions)', expected=None,
                note='one shard: the level-synchronous search forks its own workers per BFS level (mc/engine/bfs.py); cases = expanded states x events'),
         Family('strings', fam_strings, sshards,
-               f'15 string* functions; every argument tuple over the {npool} strings (length <= 3 over a,b,space; "", A, e-acute, an emoji), indices -2..len+2 and 1.5 as float literals, '
+               f'15 string* functions; every argument tuple over the {npool} strings (length <= {maxlen} over a,b,space; "", A, e-acute, an emoji), indices -2..len+2 and 1.5 as float literals, '
                'null/omitted optional index, plus wrong-typed, missing and surplus arguments', expected=expected_strings),
         Family('regex', fam_regex, split(list(range(nrx)), 64),
                f'every ordered pair (s, t) of the {nrx} strings of length <= 2 over the 32 ASCII punctuation characters + a, 0, space', expected=nrx * nrx + 8 + 2),
